@@ -52,6 +52,7 @@ func runC18(c *explore.Ctx) {
 			if c.Replay && c.ReplayScope != scope {
 				continue
 			}
+			c.Begin(scope, 0)
 			seg, err := build(batch, 1025)
 			if err != nil {
 				c.Violate(scope, 0, sigOf("C18", "build", "error: "+err.Error()), err.Error(), model.BatchString(batch))
